@@ -27,22 +27,27 @@ pub enum Needs {
 
 /// Run one checker module by name on the project.  Returns the warnings or the panic message.
 pub fn run_checker(project: &Project, name: &str, config: &Value, needs: Needs) -> Result<Vec<CweWarning>, String> {
+    run_checker_staged(project, name, config, needs).map_err(|(_, p)| p)
+}
+
+/// As [`run_checker`]; a panic is returned together with the pipeline stage it happened in
+/// ("fnsig" = compute_function_signatures, "pi" = pointer inference, "check" = the checker itself).
+pub fn run_checker_staged(project: &Project, name: &str, config: &Value, needs: Needs) -> Result<Vec<CweWarning>, (&'static str, String)> {
     let module = cwe_checker_lib::get_modules().into_iter().find(|m| m.name == name).expect("unknown checker module");
-    catch(AssertUnwindSafe(|| {
-        let graph = get_program_cfg(&project.program);
-        let binary: Vec<u8> = Vec::new();
-        let results = AnalysisResults::new(&binary, &graph, project);
-        if needs == Needs::Nothing {
-            let (_logs, warnings) = (module.run)(&results, config);
-            return warnings;
-        }
-        let (fn_sigs, _logs) = results.compute_function_signatures();
-        let results = results.with_function_signatures(Some(&fn_sigs));
-        let pi = results.compute_pointer_inference(&json!({"allocation_symbols": ["malloc", "calloc", "realloc", "xmalloc", "strdup"]}), false);
-        let results = results.with_pointer_inference(Some(&pi));
-        let (_logs, warnings) = (module.run)(&results, config);
-        warnings
+    let graph = catch(AssertUnwindSafe(|| get_program_cfg(&project.program))).map_err(|p| ("check", p))?;
+    let binary: Vec<u8> = Vec::new();
+    let results = AnalysisResults::new(&binary, &graph, project);
+    if needs == Needs::Nothing {
+        return catch(AssertUnwindSafe(|| (module.run)(&results, config).1)).map_err(|p| ("check", p));
+    }
+    let (fn_sigs, _logs) = catch(AssertUnwindSafe(|| results.compute_function_signatures())).map_err(|p| ("fnsig", p))?;
+    let results = results.with_function_signatures(Some(&fn_sigs));
+    let pi = catch(AssertUnwindSafe(|| {
+        results.compute_pointer_inference(&json!({"allocation_symbols": ["malloc", "calloc", "realloc", "xmalloc", "strdup"]}), false)
     }))
+    .map_err(|p| ("pi", p))?;
+    let results = results.with_pointer_inference(Some(&pi));
+    catch(AssertUnwindSafe(|| (module.run)(&results, config).1)).map_err(|p| ("check", p))
 }
 
 /// `compute_function_signatures`: per function (TID string) the names of the registers reported as
